@@ -45,7 +45,7 @@ partial def encodeCfg : TCfg → String
 def aggOfLetter (c : Char) : Agg := if c == 's' then aggSumInt else aggCount
 
 def mkConf (cfg : TCfg) (nk : Nat) (letters : List Char) (ket : Option Nat) : GBConf where
-  keyOf := fun vals => vals.take nk
+  keyOf := fun vals => (List.range nk).map fun i => vals.getD i .null      -- key[i] = keyExprs[i].Evaluate = Values[i]
   aggs := (List.range letters.length).zipWith (fun i c => ⟨aggOfLetter c, fun vals => vals.getD (nk + i) .null⟩) letters
   ket := ket
   cfg := cfg
